@@ -32,7 +32,8 @@ Defs == << [l |-> 0, arch |-> 0, m |-> 20, flds |-> << <<253, 4, 134>>, <<3, 1, 
            [l |-> 0, arch |-> 1, m |-> 20, flds |-> << <<3, 1, 2>>, <<6, 2, 132>> >>],        \* record, big-endian: heart_rate, speed
            [l |-> 1, arch |-> 0, m |-> 21, flds |-> << <<0, 1, 0>>, <<3, 4, 134>> >>],        \* event: event, data
            [l |-> 1, arch |-> 1, m |-> 65280, flds |-> << <<1, 2, 132>> >>],                 \* unknown message
-           [l |-> 0, arch |-> 1, m |-> 19, flds |-> << <<254, 2, 132>>, <<253, 4, 134>> >>] >> \* lap on local type 0: message_index, timestamp
+           [l |-> 0, arch |-> 1, m |-> 19, flds |-> << <<254, 2, 132>>, <<253, 4, 134>> >>],  \* lap on local type 0: message_index, timestamp
+           [l |-> 0, arch |-> 1, m |-> 20, flds |-> << <<253, 4, 134>>, <<3, 1, 2>> >> ] >>     \* the first definition again, other byte order only
 
 Tokens == { [k |-> "def", d |-> i] : i \in DOMAIN Defs }
           \cup { [k |-> "data", l |-> l, v |-> v] : l \in {0, 1}, v \in {1, 2} }
